@@ -101,11 +101,17 @@ func CalculateAmountToClaim(
 		amountToClaim = deposit
 		remainingDepositValue = sdk.NewCoin(deposit.Denom, sdk.NewInt(0))
 	} else {
-		// calculate based on flow rate and remaining deposit
-		timeSinceLast := nowTime.Sub(lastOutflowTime)
-		secondsSinceLast := int64(timeSinceLast.Seconds())
-		numCoins := secondsSinceLast * flowRate
-		amountToClaim = sdk.NewCoin(deposit.Denom, sdk.NewIntFromUint64(uint64(numCoins)))
+		// calculate based on flow rate and remaining deposit: whole seconds elapsed
+		// (exact, no floating point, no 292 year cap) times the flow rate (no int64 wrap)
+		secondsSinceLast := nowTime.Unix() - lastOutflowTime.Unix()
+		if nowTime.Nanosecond() < lastOutflowTime.Nanosecond() {
+			secondsSinceLast--
+		}
+		if secondsSinceLast < 0 {
+			secondsSinceLast = 0
+		}
+		numCoins := sdk.NewInt(secondsSinceLast).Mul(sdk.NewInt(flowRate))
+		amountToClaim = sdk.NewCoin(deposit.Denom, numCoins)
 		if deposit.Amount.GT(amountToClaim.Amount) {
 			remainingDepositValue = deposit.Sub(amountToClaim)
 		} else {
